@@ -43,7 +43,10 @@ theorem sons_length_le (g : Graph) (i : Nat) : (g.sons i).length ≤ g.maxDeg :=
     have := (foldl_max_ge (fun n => n.keys.length + n.kids.length) g.toList 0).2 _ hm
     unfold Graph.maxDeg
     rw [← Array.foldl_toList]
-    simpa [Graph.sons] using this
+    unfold Graph.sons
+    split
+    · simp
+    · simpa using this
   · simp [sons_of_ge g (by omega : g.size ≤ i)]
 
 /-! ## the generic worklist -/
